@@ -5,6 +5,8 @@ Two ties, one monitor each:
 (a2-a4, round 3) edge chain, box nesting, circle: Lean `Model/GeomEdge|GeomTree|GeomCircle` against the real
     `aird._edge_factories.generic_factory` / `snaptarget`, `aird._box_factories.generic_factory` (both driven through the XML
     attributes the parser reads) and `Circle.vector_snap`; monitors: ends on outlines, nesting, translation of the implementation.
+(a2b, a5, round 5) `generic_factory` with an Edge as source/target (`Model/GeomEdgeEnd`); float-boundary robustness: the comparison sites of the
+    code (`Gen/GeomCmp`, AST pass) classified in `Model/GeomSites`, inputs exactly on each boundary +-1 ulp / translated by non-representable vectors.
 (a) kernel: Lean `Capella.Geom` (vectorSnap, boxsnap, lineIntersect, closestaxis, snapPort, snapChild,
     bounds/viewport, edgeSnap, route_*) against the real `capellambse.diagram` code on an exhaustive
     integer lattice and on seeded rational-/real-valued cases.  Monitor: the statement itself on the
@@ -47,7 +49,12 @@ RULE = ("kernel: every (box, point, source, style, port) with proper boxes havin
         "ports, floating labels, source anchor, 0-6 stored bend points placed on the boundaries of the case distinctions, every routing style; quick 1400, thorough "
         "14000) and snaptarget on an exhaustive lattice (2 boxes (thorough 4) x 5 style/port combinations x end point and neighbour in {-1..3}^2 x two/three points, "
         "alternating first/last end) plus seeded dyadic cases; box nesting: seeded trees of notation nodes up to depth 5 through _box_factories.generic_factory "
-        "(quick 700, thorough 7000); Circle.vector_snap on seeded dyadic cases (quick 600, thorough 6000)")
+        "(quick 700, thorough 7000); Circle.vector_snap on seeded dyadic cases (quick 600, thorough 6000).  Since round 5: generic_factory with an EDGE as source and/or "
+        "target (axis-parallel / oblique / zero-length-segment polylines, labels, 0-5 stored bend points, every style; quick 600, thorough 6000); the boundary-directed "
+        "robustness run: for every family of comparison boundaries of the snap code (generated table Gen/GeomCmp, 12 families) seeded boxes at scales 2^-6 .. 2^8 and "
+        "offsets up to 2^16 with point/source placed EXACTLY on the boundary, each with +-1 ulp on every coordinate and 4 translations by non-representable vectors "
+        "(quick 24 boxes = 13 variants x ~1100 bases, thorough 240); parser: additionally every corner (quick: top-left, bottom-right) of every box that carries a "
+        "visible edge end translated onto the origin, and 3 (thorough 6) large odd vectors 2^k+1 per diagram, for ALL corpus models")
 ASSUMPTIONS = [
     "floats: the model is exact over Q; implementation answers are compared exactly when they are exactly the model's rational, else within 1e-9 (kernel) / 1e-6 (parser)",
     "the atan2-based side choice of Box.__vector_snap_closest is modelled by its sign form; on the model-declared ties (source on a diagonal of the box) any of the four side intersections is accepted",
@@ -56,6 +63,8 @@ ASSUMPTIONS = [
     "box nesting: a child clamped to a non-positive size component is outside the model (Err.degenerate; the real size property then recomputes it from text extents); a 10x10 port in a parent not larger than 6 px (no proper mid box) is outside the port theorem; both are counted in the evidence, not judged",
     "Circle.vector_snap (sqrt) is modelled as a relation (on the circle, non-negative multiple of the direction); the float result is checked against the relation with residual bounds 1e-9",
     "SNAPPING is on (AIRD_NOSNAP unset)",
+    "float boundaries: the exact model and the binary64 code are compared on inputs exactly on a comparison boundary and on agree/jumpTol boundaries also one ulp beside it; one ulp beside a DECLARED JUMP (Model/GeomSites.lean: the branches of the code disagree there) and inside the 1e-6 containment band of 47523e4 the branch the float code takes is not tied to the model - only soundness and the recorded flips are judged there",
+    "edges attached to edges: Edge.center is modelled for polylines with axis-parallel segments only (sqrt otherwise); default routes to other polylines are judged by the monitor only",
 ]
 TRUSTED = ["C17: fractions.Fraction / float conversion of CPython; lxml for editing the stored layout in memory"]
 MANIFEST = dict(
@@ -71,7 +80,10 @@ MANIFEST = dict(
           "box tree and the circle snap commute with translation. Tied to /repo by an exhaustive integer-lattice differential run, boundary lattices "
           "at several magnitudes, differential runs of the real generic_factory functions (edges, box trees) built from XML attributes, and seeded "
           "rational cases; the rest of the aird parser is checked by a metamorphic run (translate the stored layout, move one node) over every "
-          "diagram of the corpus models with an independent soundness monitor."),
+          "diagram of the corpus models with an independent soundness monitor. Round 5: every comparison of computed coordinates in the five source files is "
+          "listed by an AST pass and classified (kernel-checked: none unclassified); the snaps are proved Lipschitz in the end point on every branch with branch "
+          "verdicts locally constant off their boundaries, the boundaries where the branches disagree are proved to be jumps and are the declared ties of a "
+          "boundary-directed run (inputs exactly on each boundary, +-1 ulp, translation-induced rounding); edges attached to edges are in the edge-chain model."),
     design_ref="§6 C17",
     note=("Partial: XML walking, labels and text extents (PIL), automatic box sizes, StackingBox, edges ending on edges, float rounding, atan2 and sqrt "
           "are outside the theorems (sampled on the corpus / bounded by residual checks). Trusted: Lean kernel; sign form of the atan2 regions and the "
